@@ -7,7 +7,9 @@ pub mod inject;
 pub mod net;
 pub mod oracle;
 pub mod props;
+pub mod refagg;
 pub mod run;
 pub mod scenario;
+pub mod sniff;
 pub mod wire;
 pub mod world;
